@@ -333,7 +333,7 @@ def run(run, rng):
     for i in range(3 if run.tier == 'quick' else 40):
         run.guard(gen_retrain_case(rng), check_retrain, seconds=240)
     if run.shard[0] == 1 % run.shard[1]:
-        run.guard({'interrupted': True, 'seed': rng.getrandbits(32), 'n_lines': 20000, 'coverage': rng.choice([0.5, 0.6, 0.3]), 'points': 12 if run.tier == 'quick' else 40},
+        run.guard({'interrupted': True, 'seed': rng.getrandbits(32), 'n_lines': 20000, 'coverage': rng.choice([0.5, 0.6, 0.3]), 'points': 18 if run.tier == 'quick' else 48},
                   check_interrupted, seconds=600)
 
 def replay(run, case):
